@@ -1,7 +1,10 @@
 pub mod c01;
 pub mod c02;
 pub mod c03;
+pub mod c04;
+pub mod c05;
 pub mod c10;
+pub mod c11;
 pub mod c12;
 pub mod c13;
 pub mod c15;
@@ -14,7 +17,10 @@ pub fn lookup(id: &str) -> Option<&'static dyn Prop> {
         "C01" => Some(&c01::C01),
         "C02" => Some(&c02::C02),
         "C03" => Some(&c03::C03),
+        "C04" => Some(&c04::C04),
+        "C05" => Some(&c05::C05),
         "C10" => Some(&c10::C10),
+        "C11" => Some(&c11::C11),
         "C12" => Some(&c12::C12),
         "C13" => Some(&c13::C13),
         "C15" => Some(&c15::C15),
